@@ -362,7 +362,7 @@ func runC05(p *Prog, r *Report) {
 		if n := namedOf(sl.Elem()); n == nil || n.Obj().Name() != "LayerDetails" {
 			return
 		}
-		if body[u.Block()] {
+		if len(hdr.Succs) == 2 && hdr.Succs[0].Dominates(u.Block()) {
 			r.Check(ia.Index == ssa.Value(lastPhi), "D3-skip", fa.key+":origin", p.Pos(u.Pos()), "origin = details of the latest scanned layer", "when a package is absent from an earlier view its origin is not set to the latest layer that was actually scanned (the layer after the gap)")
 		}
 	})
